@@ -1,49 +1,58 @@
 (* C11 -- pulling a node runs exactly its upstream closure and leaves the graph as it was.
    All statements are about Pull.v (the model of Node.pull / __call__ / run_data_tree and the
    topology helpers, checked against the real library on every run); proofs in PullProofs.v.
+   The model is that of the code AFTER the repair of S12 (run_data_tree runs a non-Workflow
+   parent with emit_ran_signal=False).
 
    Vocabulary (PullProofs.v):
-     WF sc            the signal wiring of the scope is mutual and duplicate free (C12's invariant)
+     WF sc            the signal wiring of the scope is mutual and duplicate free (C12's invariant);
+                      output signals are numbered ran_of v = 2v, fail_of v = 2v+1
      reach up k x     x is in the upstream data closure of k
      topo_enum up k o o is duplicate free, contains exactly the closure of k, and every node comes
                       after all its upstream nodes ([topo up [] o])
      same_graph a b   b has the labels, starting nodes, data edges, flags of a and -- per channel --
-                      the same run / accumulate_and_run / ran connections AS SETS (and is WF)
-     quiet sc up      the composite owning the scope is not a macro with something connected
-                      to its `ran` signal
-     level_exec       see C11_runs_closure *)
+                      the same run / accumulate_and_run / ran / failed connections AS SETS (and is WF)
+     tree_exec        the log the property demands for a stack of scopes: outermost pulled scope
+                      first, in every scope a topological enumeration of the closure of the
+                      enclosing composite (resp. the target) without that node itself
+     fail_inside sc o every connection of a `failed` signal of a node of o ends inside o *)
 From PW Require Import Base Pull PullProofs.
 
-(* ---- one scope: what runs -------------------------------------------------------------- *)
+(* ---- what runs: one scope ------------------------------------------------------------------ *)
 (* For EVERY well-formed scope, target, enclosing scope and outcome: either the pull is refused
    (cyclic data / executor) and nothing at all ran, or there is a topological enumeration
-   [order = l ++ [k]] of exactly the closure of the target such that the calls made in this scope
-   are a prefix p of l, each node once, in that order (all of l when the outcome is Ok); the only
-   other calls [casc] happen one level up, and there are none unless an enclosing macro's `ran`
-   is connected. Nothing outside the closure and nothing downstream runs in the scope itself. *)
+   [order = l ++ [k]] of exactly the closure of the target such that
+     - when the upstream run succeeds, the calls are exactly l: each node once, in that order,
+       nothing outside the closure, nothing downstream, not the target itself;
+     - when no `failed` signal of a closure node reaches outside the closure, the calls are a
+       prefix of l whatever the outcome (a failing node stops the chain). *)
 Theorem C11_runs_closure : forall fuel lv sc k up sc' up' log x,
   WF sc -> level_pull fuel lv sc k up = (sc', up', log, x) ->
   (log = [] /\ (x = Err ECyclic \/ x = Err EExecutor)) \/
-  (exists order l p q casc,
-      topo_enum (ups sc) k order /\ order = l ++ [k] /\ l = p ++ q /\
-      log = map (pair lv) p ++ casc /\ (x = Ok -> q = []) /\
-      at_level (S lv) casc /\ (quiet sc up -> casc = []) /\ run_err x).
+  (exists order l,
+      topo_enum (ups sc) k order /\ order = l ++ [k] /\
+      (x = Ok -> log = map (pair lv) l) /\
+      (fail_inside sc order -> exists p q, l = p ++ q /\ log = map (pair lv) p) /\ run_err x).
 Proof. exact level_pull_exec. Qed.
 Print Assumptions C11_runs_closure.
 
-(* The whole pull (any nesting, with or without parent scopes): in the TARGET'S OWN SCOPE the
-   calls are exactly a topological enumeration of the closure, each once, the target last --
-   unconditionally, whatever enclosing macros do among their own siblings. *)
-Theorem C11_target_scope_exact : forall fuel parents sc k rest st' log,
+(* ---- nothing else, nothing downstream: the whole pull, FULL ------------------------------------ *)
+(* For every stack of well-formed scopes (parentless nodes / Workflow children / nested macro
+   children, any hand-made wiring), with and without parent scopes: a pull that returns normally has
+   executed, level by level from the outermost pulled scope down, a topological enumeration of the
+   closure of each enclosing composite, then of the target's closure, then the target -- and nothing
+   else.  (Before the repair of S12 this needed the guard "no enclosing macro has anything
+   connected to its `ran` signal".) *)
+Theorem C11_nothing_downstream : forall fuel parents sc k rest st' log,
   stack_wf ((sc, k) :: rest) -> pull fuel parents ((sc, k) :: rest) = (st', log, Ok) ->
-  exists order l, topo_enum (ups sc) k order /\ order = l ++ [k] /\ level0 log = map (pair 0) order.
-Proof. exact pull_target_scope. Qed.
-Print Assumptions C11_target_scope_exact.
+  exists l1, tree_exec parents 0 ((sc, k) :: rest) l1 /\ log = l1 ++ [(0, k)].
+Proof. exact pull_exec. Qed.
+Print Assumptions C11_nothing_downstream.
 
-(* ---- restoration ----------------------------------------------------------------------- *)
+(* ---- restoration ------------------------------------------------------------------------------- *)
 (* For every well-formed scope and EVERY outcome (Ok, refused, upstream failure, fuel): labels,
-   starting nodes and the connection SETS of every run / accumulate_and_run / ran channel are as
-   before; the enclosing scope's wiring is untouched.  (Sets, not lists: see
+   starting nodes and the connection SETS of every run / accumulate_and_run / ran / failed channel
+   are as before; the enclosing scope's wiring is untouched.  (Sets, not lists: see
    C11_order_not_restored.) *)
 Theorem C11_restores : forall fuel lv sc k up sc' up' log x,
   WF sc -> level_pull fuel lv sc k up = (sc', up', log, x) ->
@@ -58,7 +67,7 @@ Theorem C11_restores_levels : forall fuel parents st st' log x,
 Proof. exact pull_restores. Qed.
 Print Assumptions C11_restores_levels.
 
-(* ---- refusals -------------------------------------------------------------------------- *)
+(* ---- refusals ---------------------------------------------------------------------------------- *)
 (* a data cycle reachable from the target: CircularDataFlowError at any recursion depth, nothing
    ran, the scope is literally unchanged *)
 Theorem C11_refused_cyclic : forall fuel lv sc k up u v,
@@ -83,56 +92,64 @@ Proof.
 Qed.
 Print Assumptions C11_acyclic_closure.
 
-(* ---- nothing downstream: refuted in general, true under a guard --------------------------- *)
-(* The unchanged code VIOLATES "nothing else runs" (known finding S12): the parent macro is run
-   with its `ran` emission on.  Witness: macro m = {a -> b} with m >> d outside; pulling b -- even
-   without parent scopes -- executes d (node 1 of level 1), which is not upstream of m. *)
-Theorem C11_nothing_downstream_refuted : exists st st' log,
-  stack_wf st /\ pull 10 false st = (st', log, Ok) /\
-  exists usc pk d, nth_error st 1 = Some (usc, pk) /\ In (1, d) log /\ ~ reach (ups usc) pk d.
+(* ---- an upstream node fails: "nothing else" refuted in general, true under a guard ------------- *)
+(* The code VIOLATES "no sibling outside that closure" when an upstream node fails (known finding
+   C11-failed-handler-runs): the pull isolates the `ran` signals of the closure but not the `failed`
+   ones.  Witness: t <- a, a raises, h hangs on a.failed: pulling t executes h, which is not
+   upstream of t. *)
+Theorem C11_nothing_else_on_failure_refuted : exists sc k st' log e h,
+  WF sc /\ pull 10 false [(sc, k)] = (st', log, Err e) /\ In (0, h) log /\ ~ reach (ups sc) k h.
 Proof.
-  exists w_stack. eexists. eexists. split; [exact w_stack_wf|]. split; [vm_compute; reflexivity|].
-  exists w_outer, 0, 1. split; [reflexivity|]. split; [simpl; auto|].
-  intros R. inversion R; subst. simpl in H. exact H.
+  exists w_handler, 1. eexists. eexists. eexists. exists 2.
+  split; [exact w_handler_WF|]. split; [vm_compute; reflexivity|]. split; [simpl; auto|].
+  intros R. inversion R; subst. simpl in H. destruct H as [<-|[]]. inversion H0; subst. simpl in H. exact H.
 Qed.
-Print Assumptions C11_nothing_downstream_refuted.
+Print Assumptions C11_nothing_else_on_failure_refuted.
 
-(* The strongest true statement: when no enclosing composite has anything connected to its `ran`
-   signal (in particular: no enclosing composite at all, or the target's parent is a root
-   Workflow), a successful pull executes, level by level from the outermost pulled scope down, a
-   topological enumeration of the closure of the enclosing composite (without the composite
-   itself), finally the closure of the target and the target -- and nothing else. *)
-Theorem C11_nothing_downstream_partial : forall fuel parents sc k rest st' log,
-  stack_wf ((sc, k) :: rest) -> enclosing_quiet ((sc, k) :: rest) ->
-  pull fuel parents ((sc, k) :: rest) = (st', log, Ok) ->
-  exists l1, tree_exec parents 0 ((sc, k) :: rest) l1 /\ log = l1 ++ [(0, k)].
-Proof. exact pull_exec_partial. Qed.
-Print Assumptions C11_nothing_downstream_partial.
+(* The strongest true statement (second half of C11_runs_closure, restated): when every connection
+   of a `failed` signal of a closure node ends inside the closure, then for EVERY outcome the calls
+   made in the scope are a prefix of the enumeration -- nothing outside the closure ever runs. *)
+Theorem C11_nothing_else_on_failure_partial : forall fuel lv sc k up sc' up' log x,
+  WF sc -> level_pull fuel lv sc k up = (sc', up', log, x) ->
+  (forall order, topo_enum (ups sc) k order -> fail_inside sc order) ->
+  forall e, In e log -> fst e = lv /\ reach (ups sc) k (snd e) /\ snd e <> k.
+Proof.
+  intros fuel lv sc k up sc' up' log x W H Hg e He.
+  destruct (level_pull_exec _ _ _ _ _ _ _ _ _ W H) as [[-> _]|(order & l & T & Ho & _ & Hp & _)]; [destruct He|].
+  destruct (Hp (Hg _ T)) as (p & q & Hl & ->). apply in_map_iff in He. destruct He as (v & <- & Hv).
+  simpl. split; auto. destruct T as (Tn & Tr & _). subst order l. split.
+  - apply Tr. rewrite !in_app_iff. auto.
+  - intros ->. apply NoDup_remove_2 in Tn. apply Tn. rewrite app_nil_r, in_app_iff. auto.
+Qed.
+Print Assumptions C11_nothing_else_on_failure_partial.
 
-(* ---- observation: the ORDER inside a restored connection list is not the old one ---------- *)
+(* ---- observation: the ORDER inside a restored connection list is not the old one -------------- *)
 (* n.run = [b.ran; a.ran] before, [a.ran; b.ran] after pulling t <- n (pairs are re-connected in
    the order they were broken, and connect() prepends).  The property speaks of connections, the
    design of sets per channel: reported as an observation, not a violation. *)
 Theorem C11_order_not_restored : exists sc k st' log,
   WF sc /\ pull 10 false [(sc, k)] = (st', log, Ok) /\
-  exists sc', st' = [(sc', k)] /\ c_run sc 2 = [1; 0] /\ c_run sc' 2 = [0; 1].
+  exists sc', st' = [(sc', k)] /\ c_run sc 2 = [ran_of 1; ran_of 0] /\ c_run sc' 2 = [ran_of 0; ran_of 1].
 Proof.
   exists w_order, 3. eexists. eexists. split; [exact w_order_WF|]. split; [vm_compute; reflexivity|].
   eexists. split; [reflexivity|]. split; vm_compute; reflexivity.
 Qed.
 Print Assumptions C11_order_not_restored.
 
-(* ---- non-vacuity ---------------------------------------------------------------------------- *)
-(* a nested stack meeting every hypothesis of the partial theorem, with hand-made wiring and
-   starting nodes that survive: macro {a -> b, c; a >> c; starting [c]} inside a scope with an
-   upstream node u -> m; calling b runs u, then a, then b. *)
+(* ---- non-vacuity ---------------------------------------------------------------------------------- *)
+(* nested stacks meeting the hypotheses, with hand-made wiring and starting nodes that survive:
+   macro {a -> b, c; a >> c; starting [c]} inside a scope with an upstream node u -> m: calling b
+   runs u, then a, then b; and the former S12 witness (m >> d outside): d no longer runs. *)
 Example C11_hyps_hold :
-  stack_wf [(ex_inner, 1); (ex_outer, 1)] /\ enclosing_quiet [(ex_inner, 1); (ex_outer, 1)] /\
+  stack_wf [(ex_inner, 1); (ex_outer, 1)] /\ stack_wf w_stack /\
   (exists st', pull 10 true [(ex_inner, 1); (ex_outer, 1)] = (st', [(1, 0); (0, 0); (0, 1)], Ok) /\
      exists sc' r, st' = (sc', 1) :: r /\ c_run sc' 2 = [0] /\ starting sc' = [2] /\ lbl sc' 0 = "a") /\
-  (exists st', pull 10 true [(w_inner, 1); (w_outer, 0)] = (st', [(0, 0); (1, 1); (0, 1)], Ok)).
+  (exists st', pull 10 true w_stack = (st', [(0, 0); (0, 1)], Ok)) /\
+  (forall order, topo_enum (ups w_order) 3 order -> fail_inside w_order order).
 Proof.
-  split; [exact ex_stack_wf|]. split; [repeat constructor|]. split.
+  split; [exact ex_stack_wf|]. split; [exact w_stack_wf|]. split; [|split].
   - eexists. split; [vm_compute; reflexivity|]. eexists. eexists. split; [reflexivity|]. repeat split.
   - eexists. vm_compute. reflexivity.
+  - intros order _ v t _ Ht. unfold fail_of in Ht. simpl in Ht.
+    destruct (v + v) as [|[|n]] eqn:Q; simpl in Ht; try contradiction. lia.
 Qed.
